@@ -452,6 +452,9 @@ func discharge(m *Machine, h HarnessSpec, rep *HarnessReport, overlay map[string
 			c[1]++
 			rep.Sat++
 			or.Model = r.model
+			if or.Model == nil {
+				or.Model = map[string]string{} // no symbolic input involved: replay with the defaults
+			}
 			toReplay = append(toReplay, len(rep.Failures))
 		}
 		if r.verdict != "sat" && r.verdict != "unsat" {
